@@ -74,6 +74,11 @@ class MonitoredContainer(Generic[T], ABC):
     def __init__(self, *args, descriptor: PropertyDescriptor, **kwargs):
         self._descriptor: PropertyDescriptor = descriptor
         self._owner_ref: Optional[weakref.ref[Symbol]] = None
+        self._inferred_items: list = []
+        """
+        The items that were put into the container by inference (see :py:meth:`_update`). Their relations stay in the
+        graph, so they survive the assignment of a new collection to the field.
+        """
         super().__init__(*args, **kwargs)
 
     def _bind_owner(self, owner) -> MonitoredContainer:
@@ -131,6 +136,8 @@ class MonitoredContainer(Generic[T], ABC):
             inferred=inferred,
             add_relation_to_the_graph=add_relation_to_the_graph,
         )
+        if not any(item is value for item in self._inferred_items):
+            self._inferred_items.append(value)
         return True
 
     @abstractmethod
